@@ -6,6 +6,18 @@ import os
 ROOT = os.path.dirname(os.path.dirname(os.path.abspath(__file__)))
 
 CLAIMED = {
+    "C13": dict(
+        category="model_checking",
+        technique="TLA+ reference suppression predicate vs operational three-stage level rewrite (TLC, all site x "
+                  "placement x argument combinations) + every combination compiled twice (with / without suppression) and "
+                  "the two runs diffed",
+        text="Lints.tla states when a lint is silenced (RefSilenced) and how into_updated decides it (command-line list, "
+             "file of the span, entity named by the lint's recorded scope and its parents); TLC checks them equal and "
+             "prints the 563 combinations of 15 lint sites x 9 placements x 5 argument lists. Each is rendered from a "
+             "template and compiled twice on real files with options from the real command-line parser: target lint "
+             "Allowed iff silenced, every other diagnostic, the error count and the AST unchanged.",
+        note="One template per site. Binary-level effects (-A with generators, exit status) are exercised in C07 / C14.",
+        design_ref="5 (C13), 4 (Lints)"),
     "C04": dict(
         category="model_checking",
         technique="TLA+ rule catalogue (Violations: item -> codes of the violated rules) enumerated by TLC over "
